@@ -1,6 +1,6 @@
 (* C05 — only well-formed pipelines are ever registered; failed calls change nothing. *)
 From Coq Require Import List NArith.
-From Verif Require Import Alist Broker BrokerProofs BrokerExamples.
+From Verif Require Import Alist Broker BrokerProofs BrokerExamples Run_Broker RunBrokerSound.
 Import ListNotations.
 
 (* RegisterPipeline succeeds exactly when the definition meets the declarative well-formedness predicate [wf_spec]
@@ -28,3 +28,13 @@ Print Assumptions C05_is_any_iff.
 
 Theorem C05_nonvacuous : wf_spec (run nocf h1) 3%N 1%N [1%N; 2%N; 3%N] ANone.
 Proof. exact wf_spec_inhabited. Qed.
+
+(* the tie: what the correspondence check's verdict means.  The check evaluates [mismatches] on the histories the real Broker
+   produced and requires []; that holds exactly when every observed history is an execution of this model (each call's result,
+   error flag, closes and registry snapshot, and each Reopen's visits, are the model's) and meets the observation-only
+   oracles - so the theorems above speak about the observed histories, and nothing the model can produce is rejected. *)
+Theorem C05_verdict_is_model_execution : forall cs,
+  mismatches cs = [] <->
+  Forall (fun c => accepted (c_close_fails c) (c_non_closers c) b0 (c_steps c) /\ oracles_ok None [] (c_steps c)) cs.
+Proof. exact mismatches_nil_iff. Qed.
+Print Assumptions C05_verdict_is_model_execution.
